@@ -214,6 +214,19 @@ func scenarios() []*caseSpec {
 		mk("accepted queries are free", rep(qQuery(A, kE), 4), rep(qSign(B, kE), eff-1), rep(qQuery(A, kC), 3), good)
 		mk("mixed failures kinds", []reqSpec{qSign(B, kC)}, rep(qKbd(A, "B"), eff-1), good, good)
 		mk("none late", rep(qPW(A, "pwB"), eff-1), []reqSpec{qNone(A)}, good, good)
+		// first none after definite failures is not "initial": limit-1 failures + none reach the limit …
+		if eff >= 2 {
+			mk("first none after limit-1 definite failures (kbd)", rep(qKbd(A, "B"), eff-1), []reqSpec{qNone(A)}, good, good)
+			mk("first none after limit-1 definite failures (rejected key)", rep(qSign(B, kE), eff-1), []reqSpec{qNone(A)}, good)
+			mk("first none after queries and limit-1 definite failures", rep(qQuery(A, kE), 2), rep(qPW(A, "pwB"), eff-1), []reqSpec{qNone(A)}, good)
+			// … and limit-2 failures + none stay below it: the next satisfying request must succeed
+			mk("first none after limit-2 definite failures, then success", rep(qPW(A, "pwB"), eff-2), []reqSpec{qNone(A)}, good)
+			if eff >= 3 {
+				mk("first none after limit-2 definite failures (kbd), then success", rep(qKbd(A, "B"), eff-2), []reqSpec{qNone(A)}, good)
+			}
+			// only free items before the first none: still open, must not be disconnected below the limit
+			mk("first none after accepted queries only, limit-1 failures, success", rep(qQuery(A, kC), 3), []reqSpec{qNone(A)}, rep(qPW(A, "pwB"), eff-2), good)
+		}
 		if eff >= 2 {
 			// failures before and after a partial success add up
 			for _, below := range []bool{false, true} {
